@@ -188,3 +188,38 @@ pub fn check_type(c: u8) -> CheckType {
         _ => CheckType::Sha256,
     }
 }
+
+/// Makes the input end `delta` bytes after (before, if negative) the physical end of the LZ window
+/// buffer: `encode` is run once, the crate's hook reports how much room was left in the window
+/// buffer when the encoder was told to finish, and the input is extended by that many bytes
+/// (continuing its last bytes periodically, so that the final match reaches the end) or cut.
+/// Returns None when no encoder finished or the gap is too big to be worth it.
+pub fn fit_to_window(data: &[u8], delta: i32, max_extra: usize, encode: &dyn Fn(&[u8]) -> bool) -> Option<Vec<u8>> {
+    let _ = lzma_rust2::verif_api::take_last_finish_gap();
+    if !encode(data) {
+        return None;
+    }
+    let gap = lzma_rust2::verif_api::take_last_finish_gap();
+    if gap == u64::MAX || gap as usize > max_extra {
+        return None;
+    }
+    let n = gap as i64 + delta as i64;
+    let mut out = data.to_vec();
+    if n < 0 {
+        let cut = (-n) as usize;
+        if cut >= out.len() {
+            return None;
+        }
+        out.truncate(out.len() - cut);
+    } else {
+        if out.is_empty() {
+            out.extend_from_slice(b"window fit ");
+        }
+        let period = out.len().min(331);
+        for _ in 0..n {
+            let b = out[out.len() - period];
+            out.push(b);
+        }
+    }
+    Some(out)
+}
